@@ -151,6 +151,7 @@ pub const ODD_NAMES: &[&str] = &[
     "{{x}}", "${x}", "'", "`", "\"", "\\", "\\\"", "__proto__", "\u{7f}", "\u{1}", "\u{1b}[0m", "\u{feff}", "a.b",
     "a-b", "a:b", "a b c", "</script>", "<!--", "\\u{41}", "\\n", "\u{202e}rtl", "\u{2028}", "\u{85}", "\u{a0}",
     "%s", "#", "@", "a\u{301}", "ǅ", "ß", "İ", "ﬁ", "𝒳", "_1_", "_42_", "record {}", "a : nat", "a;b : c",
+    "dir\\0", "C:\\0day", "\\0", "\\01", "a\\x41", "\\u{0}", "caf\u{e9}", "\u{9b}k", "\u{ff}",
 ];
 
 pub const NUL_NAMES: &[&str] = &["\u{0}", "nul\u{0}", "\u{0}1", "a\u{0}7b"];
